@@ -173,6 +173,31 @@ def density_case(ctx, rng, idx):
     tot_ref = float(np.sum(pw_ref))
     sc = float(np.sum(np.abs(pw_ref)))
 
+    # one observation buffer reused for several data sets (overwritten in
+    # place between evaluations, as a list edited by the caller would be)
+    if form in ('array', 'list') and n <= 40:
+        buf = np.array(y, dtype=float) if form == 'array' else list(y)
+        shift = 1.0 + 0.3 * rng.random(n)
+        for rep in range(3):
+            want = float(np.sum(np.real(ref(np.asarray(buf, dtype=float),
+                                            ybar, full))))
+            got = model.compute_log_likelihood(a_p, a_ybar, buf)
+            pw_b = np.asarray(model.compute_pointwise_ll(a_p, a_ybar, buf))
+            s_b, _ = model.compute_sensitivities(a_p, a_ybar, sens.copy(),
+                                                 buf)
+            ctx.count('reused_buffer_evaluations')
+            scb = abs(want) + 1.0
+            if not (ctx.close(got, want, rtol=1e-10, scale=scb) and
+                    ctx.close(np.sum(pw_b), want, rtol=1e-10, scale=scb) and
+                    ctx.close(s_b, want, rtol=1e-10, scale=scb)):
+                ctx.violation('value_vs_documented_density',
+                              'reused_observation_buffer:' + cname,
+                              {'evaluation': rep, 'value': got,
+                               'pointwise sum': float(np.sum(pw_b)),
+                               's1': s_b, 'reference': want}, feats)
+                break
+            for i_ in range(n):
+                buf[i_] = float(buf[i_] * shift[i_])
     # value
     val = model.compute_log_likelihood(a_p, a_ybar, a_y)
     ctx.count('value_compared')
